@@ -173,7 +173,8 @@ class Corr:
                      {"tail": "\n".join(real[-5:])}, True)
         for (pno, kind, k, m, r) in mism:
             prog = c19lib.program_lines(index, lines, pno)[:k + 1]
-            op = prog[-1].split()[0]
+            tl = prog[-1].split()
+            op = tl[0] if tl[0] not in ("d2", "m", "v") else tl[0] + "-" + tl[1]     # one key per operation of the 2-D / matrix / VArray families
             cur = self.mism.get(op)
             self.mism_classes.setdefault(op, set()).add(cls)
             if cur is None or len(prog) < len(cur[0]) or (cls == "IntArray" and cur[3] != "IntArray"):
@@ -614,8 +615,16 @@ def strings(chk):
     text, index = c19_gen.write_stream(progs)
     lines = text.split("\n")
     _, m = c19lib.run_model(text)
-    _, r = c19lib.run_real(text)
+    rc_real, r = c19lib.run_real(text)
     _, s = c19lib.run_spec(text)
+    if rc_real != 0 or len(r) < len(lines) - 1:
+        last = len([x for x in r if x.strip()])
+        chk.oblige("corr:stringarray:model=real", "correspondence", False, {"rc": rc_real, "lines_answered": last})
+        chk.fail("corr:stringarray:model=real", "harness-crash:stringarray",
+                 "the Python harness died while running the string-array stream (interpreter crash / uncaught C++ exception = finding); "
+                 "last line sent: `%s`" % (lines[last] if last < len(lines) else "?"),
+                 {"rc": rc_real, "tail": "\n".join(r[-4:]), "program_tail": lines[max(0, last - 6):last + 1]}, True)
+        return
     bad_mr, bad_sr, n, aliased = [], [], 0, 0
     ops = collections.Counter()
     for (kind, first, cnt) in index:
@@ -945,6 +954,15 @@ def run(chk):
     # reported through its finding key (note_key above), at full strength
     chk.oblige("variant:current-tree-is-Cfg.current(or fully repaired)", "correspondence", tuple(best[:4]) == (1, 1, 1, 1),
                dict(zip(c19lib.FLAG_NAMES, best)))
+    # the recorded mask-on-masked quirk: the theorems name it for Cfg.current (flag 4 = 0); should upstream change it the
+    # statements `setitem_scalar_mask_on_masked_*` have to be restated — reported, not silently followed
+    chk.oblige("variant:mask-on-masked-is-as-in-Cfg.current(mask ignored)", "correspondence", best[4] == 0,
+               dict(zip(c19lib.FLAG_NAMES, best)))
+    if best[4] != 0:
+        chk.fail("variant:mask-on-masked-is-as-in-Cfg.current(mask ignored)", "cfg-current-outdated:maskOnMaskedHonoured",
+                 "the real module now honours the mask in `m[mask2] = x` on a masked reference: Cfg.current and the theorems "
+                 "setitem_scalar_mask_on_masked_ignores_mask / setitem_scalar_mask_on_masked_refines describe the former behaviour",
+                 {"decided": dict(zip(c19lib.FLAG_NAMES, best))}, False)
     chk.oblige("variant:component-arrays-keep-the-mask(compView true)", "correspondence", best[5] == 1,
                dict(zip(c19lib.FLAG_NAMES, best)))
     chk.oblige("variant:varray-size-helper-overloads-reachable", "correspondence", best[6] == 1, dict(zip(c19lib.FLAG_NAMES, best)))
@@ -1002,7 +1020,8 @@ def run(chk):
         v = classes[c]
         fullc = c == "V3iArray"
         narrow = v["comp"]["ccls"] in ("UnsignedCharArray", "SignedCharArray")
-        progs = list(c19_gen.exhaustive_comp(v["comp"]["w"], maxlen=(4 if fullc or big else 3), iadd=not narrow, full=fullc or big))
+        progs = list(c19_gen.exhaustive_comp(v["comp"]["w"], maxlen=(4 if fullc or big else 3), iadd=not narrow, full=fullc or big,
+                                             elemset=bool(v["comp"].get("elemset"))))
         sub = Corr(chk)
         sub.cfg = best
         sub.campaign("component", progs, c)
